@@ -94,3 +94,42 @@ Definition wit_roundtrip : option thread :=
   | Some (g, t1) => Some (set_local 1 6%Z (resume g t1))
   | None => None
   end.
+
+(* ---- the value stack as an ARRAY of fixed capacity that is reallocated when it is 70 % full --------------
+   vm/thread.go: growValueStackIfNeeded / growValueStack (capacity doubles, the old contents are copied, the
+   registers are rebased; the old array is abandoned).  An array thread is the backing array plus sp; the live
+   stack of the list model above is its first sp slots.  The prologue of CallGeneratorNext / callBytecodePromise
+   pushes the saved frame at sp; [policy] says whether a growth check runs in that prologue (the code as it is:
+   never; a prologue that calls growValueStackIfNeeded: [needs_grow]).  What matters is WHERE the frame is
+   written when the check fires: [resume_arr] computes the destination in the array that is live after the
+   growth, [resume_arr_stale] took the destination slice before the growth check and copies through it
+   afterwards, i.e. into the abandoned array. *)
+
+Record athread := mkA { a_arr : list Z; a_sp : nat }.
+
+Definition live (a : athread) : list Z := firstn (a_sp a) (a_arr a).
+
+(* 0.7 * capacity < sp *)
+Definition needs_grow (sp cap : nat) : bool := 7 * cap <? 10 * sp.
+
+Definition grow_arr (arr : list Z) : list Z := arr ++ repeat 0%Z (length arr).
+
+(* arr[at .. at+|src|) := src   (slots beyond the capacity are not written: the caller guarantees room) *)
+Definition write_at (at_ : nat) (src arr : list Z) : list Z :=
+  firstn at_ arr ++ firstn (length arr - at_) src ++ skipn (at_ + length src) arr.
+
+Definition resume_arr (policy : nat -> nat -> bool) (g : gen) (a : athread) : athread :=
+  let sp' := a_sp a + length (g_stack g) in
+  let arr' := if policy sp' (length (a_arr a)) then grow_arr (a_arr a) else a_arr a in
+  mkA (write_at (a_sp a) (g_stack g) arr') sp'.
+
+Definition resume_arr_stale (policy : nat -> nat -> bool) (g : gen) (a : athread) : athread :=
+  let sp' := a_sp a + length (g_stack g) in
+  if policy sp' (length (a_arr a))
+  then mkA (grow_arr (a_arr a)) sp'          (* the frame went into the abandoned array *)
+  else mkA (write_at (a_sp a) (g_stack g) (a_arr a)) sp'.
+
+(* witness: capacity 10, seven slots in use (stale 0s above), a saved frame [100; 5] resumed at sp = 7:
+   9 > 0.7 * 10, the resume itself triggers the reallocation *)
+Definition wit_arr : athread := mkA [1; 2; 3; 4; 5; 6; 7; 0; 0; 0]%Z 7.
+Definition wit_gen : gen := mkG [100; 5]%Z 40 1.
